@@ -48,7 +48,7 @@ def split_by_property(tot, prop):
 DEADLINE = {"quick": 240, "thorough": 1500}
 
 
-def hist_check(prop, tier, configs, depth, rule, assumptions, level="model_checking", long_cfgs=None, long_writes=(), maxday=2, deep=None, extra_groups=(), lag=None, reconf=None):
+def hist_check(prop, tier, configs, depth, rule, assumptions, level="model_checking", long_cfgs=None, long_writes=(), maxday=2, deep=None, extra_groups=(), lag=None, reconf=None, crash=None):
     """shared driver of C05 C06 C07 C09: exhaustive history enumeration (+ optional straight-line crossings).
     extra_groups: further (configs, depth) pairs. Every enumeration runs under a real-time deadline; a run that is cut reports
     exhaustive:false and the depth it completed on every configuration (iterative deepening), and still exits 0."""
@@ -94,6 +94,19 @@ def hist_check(prop, tier, configs, depth, rule, assumptions, level="model_check
                    ("; histories <= %d ops over the reduced alphabet {W1, W(L), D1, R} on %d configurations%s" % (deep[1], len(deep[0]), "" if done.get("deep", deep[1]) == deep[1] else " (deadline: completed <= %d)" % done.get("deep")) if deep else "") + \
                    ("; histories <= %d ops over {W1, W(L), lagging W1, lagging W(L), D1, R} on %d configurations" % (lag[1], len(lag[0])) if lag else "") + \
                    ("; histories <= %d ops over {W1, W(L), D1, R, Qc = restart with compression switched, Qs = restart with rotation-on-startup switched} on %d configurations%s" % (reconf[1], len(reconf[0]), "" if done.get("reconf", reconf[1]) == reconf[1] else " (deadline: completed <= %d)" % done.get("reconf")) if reconf else "")
+    if crash:
+        # crash points of a rotating write + restart (mode crash, as in C10): this property's verdicts about the restarted sink
+        # (C06: the directory is within the file-count limit again once the restarted sink has rotated twice) are reported here
+        ctot, cfails = run(build("plain"), shard_args("crash", crash[0], vlib.NCPU, ["--depth", crash[1]]), 3000)
+        fails += cfails
+        for v in ctot["violations"]:
+            if v["key"].startswith("C10:") and ("/" + prop + ":") in v["key"]:
+                v["key"] = prop + ":" + v["key"].split("/" + prop + ":", 1)[1]
+                tot["violations"].append(v)
+        tot["cases"] += ctot["cases"]; tot["transitions"] += ctot["transitions"]
+        for k in ("crash_points", "faults_injected", "restarts"):
+            if k in ctot["counters"]: tot["counters"][k] = ctot["counters"][k]
+        tot["bound"] += "; every crash point of a final rotating write after prefix histories <= %d ops on %d compressing configurations, then restart + 3 rotating writes" % (crash[1], len(crash[0]))
     other = split_by_property(tot, prop) + tot["counters"].get("violations_of_other_properties_not_recorded", 0)
     tot["distinct_outcomes"] = tot["states"]
     return seqxrun.finish(prop, tier, level, tot, t, rule, assumptions, fails,
